@@ -303,6 +303,8 @@ type result struct {
 	horizon  bool
 	held     []string
 	sockCli  int
+	// socket ids named by write/close tasks although no connect task ever introduced them
+	unknownSock []string
 	closed   bool
 }
 
@@ -383,6 +385,18 @@ func runClient(flights [][][]byte, eofAfter bool, answer func(id uint32) *demonw
 		}
 		se.socksCmd("socks kill", "1080")
 		se.s.Settle()
+		// what the agent is told about sockets: only ids a connect task has introduced
+		known := map[uint32]bool{}
+		for _, t := range append(append([]demonwire.Task(nil), res.tasks...), se.tasks()...) {
+			sub, ct, _, ok := parseSocketTask(t)
+			switch {
+			case !ok:
+			case sub == agent.SOCKET_COMMAND_CONNECT:
+				known[ct.id] = true
+			case (sub == agent.SOCKET_COMMAND_WRITE || sub == agent.SOCKET_COMMAND_CLOSE) && !known[ct.id]:
+				res.unknownSock = append(res.unknownSock, fmt.Sprintf("sub-command %d for socket %08x", sub, ct.id))
+			}
+		}
 	})
 	se.s.Run()
 	res.out = conn.OutBytes()
@@ -402,6 +416,8 @@ func liveness(r *ev.Run, res result, sigPrefix string, detail map[string]any) bo
 		r.Violate(sigPrefix+"/livelock", "a relay goroutine is still spinning at the horizon (the execution never becomes quiescent)", detail)
 	case len(res.held) > 0:
 		r.Violate(sigPrefix+"/lock-held", fmt.Sprint(res.held), detail)
+	case len(res.unknownSock) > 0:
+		r.Violate(sigPrefix+"/task-for-socket-the-agent-never-opened", "the agent is sent "+strings.Join(res.unknownSock, ", ")+": no connect task ever introduced that socket (the teamserver's table holds a client the agent does not)", detail)
 	default:
 		return true
 	}
